@@ -21,7 +21,11 @@ D(y, m, d) == DaysFromCivil(y, m, d)
 EdgeDays == { 0, 0 - 1, D(2000, 2, 29), D(2000, 3, 1), D(1900, 2, 28), D(1900, 3, 1), D(2100, 2, 28), D(2100, 3, 1), D(2004, 2, 29), D(1999, 12, 31), D(2000, 1, 1),
               D(2004, 12, 31), D(2005, 1, 1), D(2005, 1, 2), D(2005, 1, 3), D(2008, 12, 29), D(2009, 1, 1), D(2009, 12, 31), D(2010, 1, 3), D(2010, 1, 4),
               D(2015, 12, 31), D(2016, 1, 3), D(2020, 12, 31), D(2021, 1, 3), D(2021, 1, 4), D(1000, 1, 1), D(9999, 12, 31), D(1582, 10, 10), D(2262, 4, 12), D(1677, 9, 21),
-              D(2018, 6, 15), D(2018, 9, 9), D(2018, 11, 11) }
+              D(2018, 6, 15), D(2018, 9, 9), D(2018, 11, 11),
+              \* ordinals: days of the year 100..103, 111..113, 121, 211..213, 311..313; days of the month 11..13, 21..23; years ..11, ..12, ..13
+              D(2018, 4, 10), D(2018, 4, 11), D(2018, 4, 12), D(2018, 4, 13), D(2018, 4, 21), D(2018, 4, 22), D(2018, 4, 23), D(2018, 5, 1), D(2018, 7, 30), D(2018, 7, 31), D(2018, 8, 1),
+              D(2018, 11, 7), D(2018, 11, 8), D(2018, 11, 9), D(2018, 1, 11), D(2018, 1, 12), D(2018, 1, 13), D(2018, 1, 21), D(2018, 1, 22), D(2018, 1, 23), D(2018, 1, 31),
+              D(2011, 3, 3), D(2012, 3, 3), D(2013, 3, 3), D(2111, 3, 3), D(1912, 3, 3) }
 EdgeTimes == { 0, 1, 999, 3599999, 3600000, 43199999, 43200000, 46800000, 82800000, 86399999, 45296789 }
 Offsets == {15 * OffStep * k : k \in (0 - (56 \div OffStep))..(56 \div OffStep)} \cup {0, 15, 0 - 15, 0 - 30, 0 - 45, 30, 45, 0 - 60, 330, 0 - 570, 840, 0 - 840}
 FewOffsets == {0, 0 - 15, 0 - 30, 330, 0 - 570, 840, 0 - 840, 60}
